@@ -48,6 +48,19 @@ void once_family() {
   wrap<256, 256>();
   wrap<300, 4>();
   wrap<512, 64>();
+  // above the pooled classes *and* over-aligned: the block comes straight from alignedMalloc
+  wrap<384, 128>();
+  wrap<512, 256>();
+  wrap<768, 128>();
+  wrap<1024, 256>();
+  wrap<5120, 256>();
+  // pooled classes with the maximal alignment the class allows
+  wrap<16, 16>();
+  wrap<32, 32>();
+  wrap<96, 32>();
+  wrap<192, 64>();
+  wrap<129, 1>();
+  wrap<257, 1>();
 }
 constexpr long dsa_w_once_sizeof = sizeof(dispenso::OnceFunction);
 constexpr long dsa_w_once_alignof = alignof(dispenso::OnceFunction);
